@@ -217,6 +217,24 @@ func registerSym(e *Engine) {
 // hashUF models a hash of a byte string as an uninterpreted function per
 // length (equal inputs give equal outputs; collisions are possible).
 func hashUF(name string, w int, ts []*Term) *Term {
+	// concrete input: a fixed (FNV) value — equal inputs, equal hashes
+	allc := true
+	for _, t := range ts {
+		if !t.IsConst() {
+			allc = false
+			break
+		}
+	}
+	if allc {
+		h := uint64(14695981039346656037)
+		for _, c := range []byte(name) {
+			h = (h ^ uint64(c)) * 1099511628211
+		}
+		for _, t := range ts {
+			h = (h ^ (t.Val & 0xff)) * 1099511628211
+		}
+		return ConstT(w, h)
+	}
 	if len(ts) == 0 {
 		return UF(fmt.Sprintf("%s_0", name), w)
 	}
